@@ -455,6 +455,10 @@ Proof.
   intro H. unfold fstep. destruct (returned (fb fs)); auto. now rewrite H.
 Qed.
 
+Lemma fret_err_enabled fs : tainted g fs = true -> returned (fb fs) = None ->
+  fstep g c ext fs (Ev (Ret false)) = Some (set_ret fs false).
+Proof. intros H Hr. unfold fstep. now rewrite Hr, H. Qed.
+
 Lemma ftainted_after_fault tr1 fe fs :
   ext_ok -> faccepts g c ext d0 (tr1 ++ [fe]) = Some fs -> is_fault fe = true ->
   tainted g fs = true.
@@ -527,6 +531,20 @@ Proof.
   intros Hx1 Hc Hmt Ha1 Hx2 Ha2 Hr r n Hroot Hn.
   eapply (fclosure g c2 ext2 (dst (fb fs1))); eauto.
   eapply (fclosed_always g c1 ext1 d0); eauto.
+Qed.
+
+(* the same with the rerun as a run of the fault-free system of C01 (Model/CopySpec.v):
+   the hypothesis of C01_closure holds for the destination the first call left *)
+Lemma fretry_completes_spec (g : graph) (c1 c2 : cfg) (ext1 : bool) (d0 : list node)
+      tr1 fs1 tr2 st2 :
+  ext_ok g c1 ext1 d0 -> closed_nodes g d0 -> mt_consistent g ->
+  faccepts g c1 ext1 d0 tr1 = Some fs1 ->
+  accepts g c2 (dst (fb fs1)) tr2 = Some st2 -> returned st2 = Some true ->
+  forall n, reach g (c_root c2) n -> has g (dst st2) n = true.
+Proof.
+  intros Hx1 Hc Hmt Ha1 Ha2 Hr.
+  apply (closure_lemma g c2 (dst (fb fs1)) tr2 st2); auto.
+  exact (fclosed_always g c1 ext1 d0 tr1 fs1 Hx1 Hc Ha1).
 Qed.
 
 (* ------------------------------------------------------------------ witnesses *)
